@@ -3,13 +3,17 @@
 Proof: Props/C05.lean (dup_not_rehandled, dup_reply_equal, fresh_after_lifetime, own_mid_no_crosstalk, run_conforms) over
        Model/Dedup.lean for arbitrary event lists; Props/C05Lock.lean (mutex_per_mid, handler_once_per_mid_n,
        completed_copies_exactly_one_execution, no_deadlock, different_mids_independent, ...) over Model/DedupLockN.lean: n goroutines
-       over the modelled MutexMap, for arbitrary schedules.
+       over the modelled MutexMap, for arbitrary schedules; Props/C05Opts.lean (table_admits_rfc_lengths, recode_legal,
+       served_reply_is_first_reply) over Model/DedupRecode.lean: the cached reply is decoded again with the option table
+       CoapOptionDefs - a reply whose options have lengths legal by their RFCs comes out as it went in.
 Tie:   T — Generated/Dedup.lean: ExchangeLifetime (compiled value), lookup key, store key, per-MID lock shape of handleReq,
-           checkMyMessageID constants (AST of udp/client/conn.go);
+           checkMyMessageID constants (AST of udp/client/conn.go); Generated/OptionDefs.lean: the option table of message/option.go
+           against the RFC lengths of Spec/DedupOpts.lean;
        X — scenarios on a real udp/client.Conn (in-memory session, synctest virtual clock): duplicates / reordering,
            CON/NON, handler behaviours, MIDs equal to own outgoing MIDs, both sides of 247 s (+-1 ns), copies processed
            concurrently (2..8 copies, also while the first handler runs and around the lifetime); request codes 0.01-0.08, 0.31;
            Reset replies and replies with unknown option numbers (datagrams decoded by the harness's own parser);
+           replies carrying each RFC-defined option number (and unassigned ones) with every marked legal value length;
            handler log + datagrams compared with the model; the specification's judge on the observed history.
 """
 import glob
@@ -19,8 +23,8 @@ import random
 
 from . import common
 
-MODULES = ["CoapVerif.Props.C05", "CoapVerif.Props.C05Lock", "CoapVerif.Findings.C05"]
-GENERATED = ["Dedup.lean"]
+MODULES = ["CoapVerif.Props.C05", "CoapVerif.Props.C05Lock", "CoapVerif.Props.C05Opts", "CoapVerif.Findings.C05"]
+GENERATED = ["Dedup.lean", "OptionDefs.lean"]
 L = 247 * 10**9
 BEHS = ["pb", "pbe", "none", "sep", "empty", "hjm", "hjr", "rst", "rstc", "ox", "oc", "oxc"]
 # request codes: the four methods package codes names, FETCH / PATCH / iPATCH (RFC 8132), two unassigned ones
@@ -63,6 +67,49 @@ def option_family():
                            % (lvl, typ, beh, typ, beh, L - 1, other, beh, typ, beh, typ, beh))
     for beh in ("ox", "oc", "oxc", "rst", "rstc"):
         out.append("own 0 udpsrv | recv con 77 beef %s | newconn | recv con 77 beef %s | par 3 con 77 beef %s" % (beh, beh, beh))
+    return out
+
+
+# Legal value lengths of the options a reply may carry, from the RFCs (NOT from the library's table): RFC 7252 section 5.10,
+# RFC 7641 (Observe), RFC 7959 (Block2/Block1/Size2), RFC 7967 (No-Response), RFC 8613 (OSCORE), RFC 8768 (Hop-Limit),
+# RFC 9177 (Q-Block1/2), RFC 9175 (Echo 1-40, Request-Tag 0-8).  Mirrored by Spec/DedupOpts.lean: rfcLen.
+RFC_OPT_LEN = {1: (0, 8), 3: (1, 255), 4: (1, 8), 5: (0, 0), 6: (0, 3), 7: (0, 2), 8: (0, 255), 9: (0, 255), 11: (0, 255), 14: (0, 4),
+               15: (0, 255), 16: (1, 1), 17: (0, 2), 19: (0, 3), 20: (0, 255), 23: (0, 3), 27: (0, 3), 28: (0, 4), 31: (0, 3),
+               35: (1, 1034), 39: (1, 255), 60: (0, 4), 252: (1, 40), 258: (0, 1), 292: (0, 8)}
+# numbers no RFC assigns (elective / critical, one / two byte option delta): any length is to be passed on
+UNASSIGNED_OPTS = [2048, 2049, 65000, 65001]
+# lengths where something changes: the ends of the legal range and their neighbours, 8/9 (a uint64 / the shortest limits), 12/13 and
+# 268/269 (the option header grows), 40/41, 255/256
+LEN_MARKS = [0, 1, 2, 3, 4, 7, 8, 9, 12, 13, 14, 39, 40, 41, 254, 255, 256, 268, 269, 270, 1033, 1034]
+
+
+def legal_lengths(oid):
+    lo, hi = RFC_OPT_LEN.get(oid, (0, 1034))
+    return [n for n in LEN_MARKS if lo <= n <= hi]
+
+
+def rand_ov(rng):
+    oid = rng.choice(list(RFC_OPT_LEN) + UNASSIGNED_OPTS)
+    return "ov-%d-%d" % (oid, rng.choice(legal_lengths(oid)))
+
+
+def option_value_family():
+    """A reply that carries one more option - every option number an RFC defines and some that none does - with a value of every
+    marked length that is legal for it: the first copy, a duplicate, a duplicate of the other type; each must carry the option
+    (the reply served to a duplicate has been through the library's encoder and decoder, with the library's option table)."""
+    out = []
+    n = 0
+    for oid in list(RFC_OPT_LEN) + UNASSIGNED_OPTS:
+        for ln in legal_lengths(oid):
+            n += 1
+            typ = ("con", "non")[n % 2]
+            other = "non" if typ == "con" else "con"
+            lvl = ("", " dtlssrv")[(n // 2) % 2]
+            b = "ov-%d-%d" % (oid, ln)
+            mid = 1000 + n
+            out.append("own 0%s | recv %s %d 0e0f %s | recv %s %d 0e0f %s | recv %s %d 0e0f %s" % (lvl, typ, mid, b, typ, mid, b, other, mid, b))
+            if n % 5 == 0 and ln <= 300:
+                out.append("own 0 udpsrv | recv con %d 0e0f %s | newconn | recv con %d 0e0f %s" % (mid, b, mid, b))
     return out
 
 
@@ -205,6 +252,9 @@ def gen_scenario(rng):
                 beh = rng.choice(BEHS if rng.random() < 0.9 else ["pb"])
                 if beh in ("ox", "oxc") and rng.random() < 0.7:
                     beh = "oc"                       # (the elective set has a 300 byte value: keep the histories short)
+                if rng.random() < 0.08:
+                    beh = rand_ov(rng)               # one more option of a legal length in the reply
+                    cls.add("reply-option-of-legal-length")
                 if rng.random() < 0.3:
                     beh = with_code(beh, rng.choice(REQ_CODES))
                     cls.add("request-code-not-GET")
@@ -225,7 +275,7 @@ def gen_scenario(rng):
                     cls.add("parallel-process-3-or-more-copies")
             else:
                 ops.append("recv %s %d %s %s" % (typ, mid, tok, beh))
-            cls.add(typ + "-" + beh.split(".")[0])
+            cls.add(typ + "-" + beh.split(".")[0].split("-")[0])
             if beh.split(".")[0] == "sep":
                 pending_sep = True
             if mid not in last or t > last[mid][0] + L:
@@ -365,7 +415,7 @@ def explore(ctx, art):
     srv = dtls_many_between(random.Random(ctx.seed + 11)) + udpsrv_lines(random.Random(ctx.seed + 12), 3 if thorough else 1)
     srv += [l.replace("own 0 |", "own 0 dtlssrv |", 1) for l in fixed_lines() if l.startswith("own 0 |")]
     lines += srv
-    fam = code_family() + option_family() + many_copies_family(random.Random(ctx.seed + 13))
+    fam = code_family() + option_family() + option_value_family() + many_copies_family(random.Random(ctx.seed + 13))
     lines += fam
     ncorpus = len(lines)
     classes = {}
@@ -382,7 +432,7 @@ def explore(ctx, art):
             nd += 1
     classes["level-dtlssrv (seeded scenarios repeated on a server-made connection)"] = nd
     classes["level-dtlssrv/udpsrv (fixed families)"] = len(srv)
-    classes["families: request codes 0.01-0.08/0.31, unknown options + Reset replies, 3..8 copies at once (hand/dtlssrv/udpsrv)"] = len(fam)
+    classes["families: request codes 0.01-0.08/0.31, unknown options + Reset replies, reply option x legal value length, 3..8 copies at once (hand/dtlssrv/udpsrv)"] = len(fam)
     impl, model, judge = run_lines(ctx, art, lines)
     if impl is None:
         return
@@ -422,7 +472,8 @@ def explore(ctx, art):
     ctx.cov["rule"] = ("one evaluation = one scenario (3-15 ops) on a real udp/client.Conn; non-trivial = some message ID arrives at least "
                        "twice (or copies are processed in parallel); distinct by scenario text. Boundary enumeration: {con,non} x 12 handler "
                        "behaviours x {247 s -1 ns, 247 s, +1 ns} x {sweep, no sweep}; requests carrying each of the first six own message IDs; "
-                       "families: 9 request codes x {con,non} x levels; unknown-option / Reset replies x levels; 3..8 copies at once, during the "
+                       "families: 9 request codes x {con,non} x levels; unknown-option / Reset replies x levels; 25 RFC option numbers + 4 unassigned x "
+                       "marked legal value lengths (range ends, 8/9, 12/13, 40, 255, 268/269, 1034) in the reply x levels; 3..8 copies at once, during the "
                        "first handler, around the lifetime x levels hand / dtlssrv / udpsrv.")
     for l, o in list(zip(lines, impl))[:3] + list(zip(lines, impl))[ncorpus:ncorpus + 3]:
         ctx.sample({"input": l, "implementation": o})
